@@ -48,3 +48,50 @@ pub fn fw_sample(case: &FwCase) -> Value {
         "first_calls": calls,
     })
 }
+
+/// domain of the framework properties: validated machines, fractions in [0,1], bounded size
+pub fn fw_admissible(case: &FwCase) -> bool {
+    let frac = |f: f64| !f.is_nan() && (0.0..=1.0).contains(&f);
+    frac(case.max_padding_frac.0)
+        && frac(case.max_blocking_frac.0)
+        && case.machines.len() <= 8
+        && case.calls.len() <= 400
+        && case.calls.iter().all(|c| c.events.len() <= 64)
+        && case.words.len() <= 256
+        // scripted words go into samplers only for constant distributions (adversarial words inside
+        // samplers are C13's domain, and meet its listed findings there)
+        && (case.words.is_empty() || case.machines.iter().all(|m| m.all_dists_constant()))
+        && case.machines.iter().all(|m| m.states.len() <= 16 && m.build().is_ok())
+}
+
+pub fn sim_admissible(c: &crate::simrun::SimCase) -> bool {
+    let frac = |f: f64| !f.is_nan() && (0.0..=1.0).contains(&f);
+    !c.trace.is_empty()
+        && c.trace.len() <= 400
+        && c.trace.windows(2).all(|w| w[0].0 <= w[1].0)
+        && c.trace.iter().all(|x| x.0 <= 1_000_000_000_000)
+        && c.delay_ns <= 2_000_000_000
+        && c.pps.map(|p| p >= 1).unwrap_or(true)
+        && c.fracs.iter().all(|f| frac(f.0))
+        && (1..=3000).contains(&c.max_sim_iterations)
+        && c.client.len() <= 4
+        && c.server.len() <= 4
+        && c.client.iter().chain(c.server.iter()).all(|m| m.states.len() <= 8 && m.build().is_ok() && light(m))
+}
+
+/// sampled values stay in the microsecond-to-second range (the simulator adds them to Instants)
+fn light(m: &crate::spec::MachineSpec) -> bool {
+    use crate::spec::DistKind;
+    let ok = |d: &crate::spec::DistSpec| {
+        let bounded = d.max.0 > 0.0 && d.max.0 <= 1e9;
+        match d.kind {
+            DistKind::Uniform { low, high } => low.0 >= 0.0 && high.0 <= 1e9 && d.start.0.abs() <= 1e9 && (d.max.0 == 0.0 || bounded),
+            _ => bounded && d.start.0.abs() <= 1e9,
+        }
+    };
+    m.states.iter().all(|s| {
+        s.action.map(|a| a.dists().iter().all(|d| ok(d))).unwrap_or(true)
+            && s.counter_a.and_then(|c| c.dist).map(|d| ok(&d)).unwrap_or(true)
+            && s.counter_b.and_then(|c| c.dist).map(|d| ok(&d)).unwrap_or(true)
+    })
+}
